@@ -95,6 +95,8 @@ define_ops! {
     to_base_iter = |a: U, b: W, k: N| ((a.to_base_le(b).count(), a.to_base_le(b).last(), a.to_base_le(b).nth(k)), (a.to_base_be(b).count(), a.to_base_be(b).last(), a.to_base_be(b).nth(k)), (a.to_base_le(b).skip(k).collect::<Vec<u64>>(), a.to_base_be(b).take(k).collect::<Vec<u64>>(), a.to_base_le(b).fold(0u64, |x, d| x.wrapping_mul(31).wrapping_add(d))), { let mut it = a.to_base_be(b); let first = it.next(); let rest: Vec<u64> = it.collect(); (first, rest) });
     from_base_le = |b: W, d: LS| Uint::<B, L>::from_base_le(b, d);
     from_base_be = |b: W, d: LS| Uint::<B, L>::from_base_be(b, d);
+    // the digits through iterators whose size hint under-reports (filter: (0, Some(n)); NoHint: (0, None))
+    from_base_le_nh = |b: W, d: LS| (Uint::<B, L>::from_base_le(b, NoHint(d.clone().into_iter())), Uint::<B, L>::from_base_le(b, d.clone().into_iter().filter(|_| true)), Uint::<B, L>::from_base_be(b, NoHint(d.clone().into_iter().rev())), Uint::<B, L>::from_base_be(b, d.into_iter().rev().filter(|_| true)));
     from_str_radix = |s: ST, r: W| Uint::<B, L>::from_str_radix(&s, r);
     from_str = |s: ST| Uint::<B, L>::from_str(&s);
     format = |a: U, spec: N, tr: N| fmt_with(&a, spec, tr);
@@ -255,6 +257,12 @@ fn model(bits: usize, op: Op, args: &[V]) -> Expect {
             ]))
             .nt(le.len() > 1)
         }
+        from_base_le_nh => {
+            // all four routes read the same little-endian digit list: the outcome of the plain from_base_le, four times
+            let e = model(bits, from_base_le, args);
+            let d = vharness::runner::describe_expect(&e);
+            return pred(&format!("four iterator routes, each as from_base_le on the same digits: {d}"), move |g| matches!(g, V::T(t) if t.len() == 4 && t.iter().all(|x| vharness::runner::accepts(&e, x)))).nt(true);
+        }
         from_base_le | from_base_be => {
             let b = args[0].as_n() as u64;
             let d: Vec<u64> = <Vec<u64> as FromV<0, 0>>::from_v(&args[1]);
@@ -400,6 +408,7 @@ fn c09(r: &Runner) {
                     let be: Vec<u64> = dg.iter().rev().copied().collect();
                     exec(l, bits, Op::from_base_le, &[V::N(b as u128), nl(&dg)]);
                     exec(l, bits, Op::from_base_be, &[V::N(b as u128), nl(&be)]);
+                    exec(l, bits, Op::from_base_le_nh, &[V::N(b as u128), nl(&dg)]);
                     // with redundant zero digits at the significant end
                     let mut z = dg.clone();
                     z.extend([0, 0]);
